@@ -492,6 +492,11 @@ def c_history(case, ctx):
             run_request(su, op, "step %d %s" % (k, op["solver"]))
 
 
+def model_world_jac(m, ths):
+    """Space Jacobian in WORLD coordinates (what the library's solver inverts)."""
+    return A.model_jac_space(m, ths, clamped=False)       # vf.arms already returns the world-frame Jacobian
+
+
 def c_local(case, ctx):
     """Clause 6: local convergence."""
     su = Setup(case, ctx)
@@ -531,6 +536,12 @@ def c_local(case, ctx):
             ctx.skip("solution has a joint at exactly 0 and a tolerance below the NearZero resolution of the library's FK")
         ctx.label("solution has a joint at 0 (tolerances above the NearZero resolution)")
     delta = delta_vec(m.n, case["delta"], case["mag"])
+    if case.get("worst_dir") is not None:
+        # the hardest start of the same size: the offset lies along the weakest right-singular direction of the
+        # (world) space Jacobian -- the direction a damped / truncated pseudo-inverse corrects last
+        _, _, Vt = np.linalg.svd(model_world_jac(m, ths))
+        delta = float(np.linalg.norm(delta)) * (1.0 if case["worst_dir"] else -1.0) * Vt[min(m.n, 6) - 1]
+        ctx.label("start offset along the weakest singular direction")
     th0 = ths + delta
     Gm = su.fk(ths)
     solver = case["solver"]
@@ -685,10 +696,25 @@ def roomy_arm_specs(draw):
     return spec
 
 
+@st.composite
+def roomy_arm_specs_far(draw):
+    """... and a third of them standing 5..15 units from the world origin: the world-frame space Jacobian the solvers
+    invert then has a large top singular value (lever of the base), i.e. a wide singular-value spread at an
+    otherwise well-conditioned solution -- where truncated / damped pseudo-inverses stop converging."""
+    spec = draw(roomy_arm_specs())
+    if draw(st.integers(0, 2)) == 0:
+        far = draw(G.generic_unit_vectors()) * draw(G.floats(5.0, 15.0))
+        base = np.array(spec.get("base", np.zeros(6)), dtype=float).reshape(6).copy()
+        base[:3] = base[:3] + far
+        spec["base"] = base
+    return spec
+
+
 S_LOCAL = st.fixed_dictionaries({
-    "arm": roomy_arm_specs(), "tol": TOLS, "code": A.theta_codes(), "delta": DELTA,
+    "arm": roomy_arm_specs_far(), "tol": TOLS, "code": A.theta_codes(), "delta": DELTA,
     "mag": st.one_of(G.floats(0.0, 0.02), st.just(0.02), G.log_uniform(1e-9, 0.02)),
     "generic": st.sampled_from([True, True, True, False]),
+    "worst_dir": st.sampled_from([None, None, True, False]),
     "solver": SOLVERS, "check": st.booleans(), "seed": SEED})
 S_IKFREE = st.fixed_dictionaries({
     "arm": A.arm_specs(nmin=2), "tol": TOLS, "code0": A.theta_codes(), "code1": A.theta_codes(),
@@ -709,6 +735,6 @@ CLAUSES = [
     Clause("reachable_goal_any_start", c_single, S_REACH, 400, 24000, region=half_turn_region),
     Clause("unreachable_goal_is_failure", c_single, S_BEYOND, 250, 12000, region=half_turn_region),
     Clause("solve_history_coherent", c_history, S_HISTORY, 250, 12000, region=half_turn_region),
-    Clause("local_convergence", c_local, S_LOCAL, 400, 24000, region=half_turn_region),
+    Clause("local_convergence", c_local, S_LOCAL, 600, 24000, region=half_turn_region),
     Clause("ikfree_success_meets_tol", c_ikfree, S_IKFREE, 500, 12000),
 ]
